@@ -277,6 +277,15 @@ pub fn random_behaviour(r: &mut Rng, t: &mut Trace, steps: usize) {
             t.run(&mut w, op);
         }
     }
+    // one more pair created inside the observed history, with an explicit commission rate (zero every other time):
+    // the rate a creator asks for is the rate the pair charges
+    {
+        let c = if r.chance(1, 2) { st(0) } else { st(pal_rate(r).min(D18)) };
+        let other = if r.chance(1, 2) { tok(&w.tokens[0]) } else { nat("ub") };
+        let infos = if r.chance(1, 2) { json!([nat("uc"), other]) } else { json!([other, nat("uc")]) };
+        t.run(&mut w, json!({"op": "fac_create_pair", "caller": "owner", "infos": infos, "commission": c,
+                             "whitelist": ["alice", "bob"], "min0": st(r.below(3) as u128), "min1": st(0)}));
+    }
     for _ in 0..steps {
         let i = r.below(np as u64) as usize;
         let (a0, a1) = pair_infos(&w, i);
@@ -736,11 +745,17 @@ pub fn inject_withdrawals(r: &mut Rng, t: &mut Trace, w: &mut World) {
 // matrix driver (C02, C09, C14)
 // ---------------------------------------------------------------------------------------------
 pub fn matrix_behaviour(r: &mut Rng, t: &mut Trace) {
-    let (setup, _) = std_setup_with(r, 1u128 << 100, false, true);
+    let (mut setup, _) = std_setup_with(r, 1u128 << 100, false, true);
+    // look-alike bank denoms: the pair denoms in another letter case and with a suffix (bank denoms are exact,
+    // case-sensitive strings; a coin of a look-alike denom is not a payment of the declared one)
+    for d in ["UA", "UB", "uax"] {
+        setup["denoms"].as_array_mut().unwrap().push(json!({"denom": d, "decimals": 6, "register": false}));
+    }
     let mut w = World::build(&setup);
     t.reset(&w, &setup);
     let np = w.pairs.len();
     let mag = *r.pick(&[1_000_000u128, 1_000_000_000_000, 1u128 << 70]);
+    let alike = |d: &str, k: usize| -> String { if k == 0 || d == "ub" { d.to_uppercase() } else { format!("{}x", d) } };
     for i in 0..np {
         let op = op_provide(&w, i, "alice", mag + r.below128(mag), mag * 3 + r.below128(mag), nul(), nul());
         t.run(&mut w, op);
@@ -759,9 +774,12 @@ pub fn matrix_behaviour(r: &mut Rng, t: &mut Trace) {
             for named in [infos[0].clone(), infos[1].clone(), foreign.clone(), flipped.clone()].iter() {
                 for named_amt in [amount, amount + 1, amount - 1, 0] {
                     if is_native(delivered) {
-                        for funds_kind in 0..5 {
+                        for funds_kind in 0..8 {
                             // only a sample of the full cross product per run, all of it over seeds
                             if !(named == delivered && named_amt == amount) && !r.chance(1, 3) {
+                                continue;
+                            }
+                            if funds_kind >= 5 && !(id_of(delivered) == "ua" || id_of(delivered) == "ub") {
                                 continue;
                             }
                             let d = if *named == flipped && is_native(named) { id_of(named) } else { id_of(delivered) };
@@ -770,6 +788,10 @@ pub fn matrix_behaviour(r: &mut Rng, t: &mut Trace) {
                                 1 => json!([[d, st(amount - 1)]]),
                                 2 => json!([[d, st(amount)]]),
                                 3 => json!([[d, st(amount + 1)]]),
+                                // the declared amount in a look-alike denom only / ahead of a short real payment
+                                5 => json!([[alike(&d, 0), st(amount)]]),
+                                6 => json!([[alike(&d, 0), st(amount)], [d, st(amount / 2 + 1)]]),
+                                7 => json!([[alike(&d, 1), st(amount)]]),
                                 _ => {
                                     let mut f = vec![(d.clone(), amount), ("uc".to_string(), 5u128)];
                                     f.sort();
@@ -795,13 +817,23 @@ pub fn matrix_behaviour(r: &mut Rng, t: &mut Trace) {
             }
         }
         // --- C09 on provide: declared x attached for each native asset
-        for k in 0..6 {
+        for k in 0..9 {
             let d0 = amount * 10;
             let d1 = amount * 30;
             let mut f: Vec<(String, u128)> = vec![];
             let adj = |k: usize, v: u128| match k { 0 => Some(v), 1 => Some(v - 1), 2 => Some(v + 1), 3 => None, 4 => Some(v), _ => Some(v * 2) };
+            if k >= 6 {
+                // the declared amounts attached in look-alike denoms: one side (6, 7) or both (8)
+                for (j, (a, v)) in [(&a0, d0), (&a1, d1)].iter().enumerate() {
+                    if !is_native(a) { continue; }
+                    let real = id_of(a);
+                    let fake = k == 8 || (k - 6) == j || !(is_native(&a0) && is_native(&a1));
+                    f.push((if fake { alike(&real, k % 2) } else { real }, *v));
+                }
+            } else {
             if is_native(&a0) { if let Some(v) = adj(k, d0) { f.push((id_of(&a0), v)); } }
             if is_native(&a1) { if let Some(v) = adj((k + 3) % 6, d1) { f.push((id_of(&a1), v)); } }
+            }
             if k == 4 { f.push(("uc".to_string(), 9)); }
             f.sort();
             f.dedup_by(|x, y| x.0 == y.0);
